@@ -1398,3 +1398,22 @@ pub fn seeds_for_patterns(r: usize) -> Vec<u64> {
     }
     found.into_iter().flatten().collect()
 }
+
+
+/// Runs a case twice and aborts as a machinery error if the two runs differ in anything the oracles
+/// look at (timed packet kinds, service calls, result): a failure must be a function of the schedule.
+pub fn assert_deterministic(case: &Case, what: &str) {
+    let view = |o: &Obs| {
+        (
+            o.packets.iter().map(|(t, p)| (*t, p.kind())).collect::<Vec<_>>(),
+            o.calls.iter().map(|c| (c.t(), c.kind())).collect::<Vec<_>>(),
+            o.result.kind(),
+            o.consumed,
+            o.end_ms,
+        )
+    };
+    let (a, b) = (run(case), run(case));
+    if view(&a) != view(&b) {
+        common::machinery(&format!("nondeterministic harness: two runs of the same case differ ({what})"));
+    }
+}
